@@ -18,7 +18,7 @@ EXPLANATION = (
     "C18.3 set-up failure edges release what was acquired (checked under C12.1/C12.2); "
     "C18.4 every SQE constructor is well-formed (sibling agreement over all new_* functions): opcode is the IoUringOp variant the name says, user_data and flags come from the parameters of those names, fd from the descriptor/dir-fd parameter (AT_FDCWD for None); "
     "C18.5 io_uring_enter / io_uring_register_* pass the ring descriptor and their arguments through to the system call and classify the result (C09). "
-    "C18.6 a submission slot is handed out only while (tail + 1) - kernel_head <= ring_entries with the head the kernel publishes on every path, so no queued operation is overwritten before it was consumed; "
+    "C18.6 a submission slot is handed out only while (tail + 1) - kernel_head <= ring_entries with the head the kernel publishes on every path, so no queued operation is overwritten before it was consumed, and the completion read is entries + ((kernel_head & mask) << shift); "
     "NOT decided: that results equal the direct system call's, one completion per submission (kernel behaviour).")
 ASSUMPTIONS = ["params.sq_entries == ring_entries read from the mapped ring (the kernel's two reports of one number)", "IORING_FEAT_SINGLE_MMAP semantics"]
 
@@ -29,12 +29,13 @@ CLOSE = "rusl::unistd::close::close"
 
 
 def run(ck, progs, tier):
-    from .c17 import check_slot_capacity
+    from .c17 import check_slot_capacity, check_cqe_index
     for cfgname, prog in progs.items():
         ck.set_config(prog)
         run_one(ck, prog)
         # C18.6 an entry the kernel has not consumed yet is never handed out again (its operation would be lost: no completion)
         check_slot_capacity(ck, prog, "C18.6")
+        check_cqe_index(ck, prog, "C18.6")
 
 
 def run_one(ck, prog):
